@@ -244,6 +244,15 @@ def check(run: Run) -> None:
         fl = R.flow(run, fa)
         R.k2_follow(run, "C09.e", fl, R.call_is(name="ensure_child_graph"), R.call_is(name="single_nested_graph_propagate_schedule"),
                     "start always ends with propagating the child's schedule", exits="normal", after="completed")
+        # ... and the propagation comes AFTER the child was started (before the start the child has nothing scheduled: the wake-ups its
+        # nodes request while starting would never reach the parent); try_except has its own start function with the same duty
+        for rel_, fn_ in ((NESTED, "single_nested_graph_start"), (RT + "try_except_node.cpp", "try_except_start")):
+            fa_ = R.fn(run, rel_, fn_)
+            fl_ = R.flow(run, fa_)
+            R.k2_follow(run, "C09.e", fl_, R.call_is(name="start", recv=r"nested\.child_graph\(\)"), R.call_is(name="single_nested_graph_propagate_schedule"),
+                        f"{fn_}: the child's start is followed by propagating its schedule to the parent", exits="normal", after="completed")
+            R.k2_follow(run, "C09.e", fl_, R.call_is(name="start", recv=r"nested\.child_graph\(\)"), R.call_is(name="schedule_sampled_input_consumers"),
+                        f"{fn_}: the child's start is followed by sampling its bound inputs", exits="normal", after="completed")
         fa = R.fn(run, NESTED, "single_nested_graph_evaluate")
         cn = R.aliases_of(fa)
         rets = [cn(r.e) for r in R.find(fa, lambda n: isinstance(n, C.Return))]
@@ -280,12 +289,52 @@ def check(run: Run) -> None:
                 run.finding("C09.f", f"{nm}:no-bind", f"{nm} no longer binds", loc=NESTED)
         run.sites(n, 3, "bind calls")
 
+    with run.obligation("C09.g", "K7", "captured outer ports are appended AFTER the declared inputs of a sub-graph: every place that turns a capture index into "
+                        "an input ordinal adds the collector's base_index (a bare capture index would alias a declared input)"):
+        WIRING = "src/hgraph/types/graph_wiring.cpp"
+        fi = t.file(WIRING)
+        n = 0
+        for fd in fi.funcs:
+            if fd.body is None or "index_for" not in fi.text(fd.body[0], fd.body[1]) or fd.name == "index_for":
+                continue
+            fa = R.parse(run, fd, strict=False)
+            cn = R.aliases_of(fa)
+            parents = {}
+            for node in fa.body.walk():
+                for ch in node.children():
+                    parents[id(ch)] = node
+            for c in R.calls(fa, "index_for"):
+                if not isinstance(c.fn, C.Member):
+                    continue
+                n += 1
+                run.count(1, "C09.g.use")
+                recv = cn(c.fn.obj)
+                par = parents.get(id(c))
+                while par is not None and isinstance(par, C.Cast):
+                    if cn(par) == cn(c) and "void" in str(getattr(par, "type", "")):
+                        break
+                    par = parents.get(id(par))
+                if isinstance(par, C.Cast) or (isinstance(par, C.ExprStmt)):
+                    continue  # value discarded: registration only
+                ok = isinstance(par, C.Binary) and par.op == "+" and any(re.fullmatch(re.escape(recv).replace(r"\*", "") + r"(\.|->)base_index", cn(x)) or
+                                                                           cn(x).endswith("base_index") for x in (par.l, par.r) if x is not c)
+                if not ok:
+                    run.finding("C09.g", f"{fd.name}:capture-ordinal-without-base", f"{fd.qual} uses `{cn(c)}` as an input ordinal without adding base_index: "
+                                "the nested node would read its k-th DECLARED input instead of its k-th captured outer port", loc=fa.loc(c))
+        run.sites(n, 3, "capture index uses")
+        fa = R.fn(run, WIRING, "OuterCaptureCollector::boundary_ordinal")
+        rets = [R.Canon()(r.e).replace(" ", "") for r in R.find(fa, lambda x: isinstance(x, C.Return))]
+        if "base_index+capture_index" not in rets and "capture_index+base_index" not in rets:
+            run.finding("C09.g", "boundary_ordinal:no-base", f"boundary_ordinal of a captured source must be base_index + capture index: {rets}", loc=WIRING)
+
 
 def HDRX(cn, tail):
     return "graph_header(graph_context(context),graph.data())." + tail
 
 
 VARIANTS = [
+    {"id": "g-returned-capture-without-base", "expect": "C09.g", "edits": [{"file": "src/hgraph/types/graph_wiring.cpp", "find": "              .parent_source_path = {captures.base_index +\n                                     captures.index_for(*output)},", "replace": "              .parent_source_path = {captures.index_for(*output)},"}]},
+    {"id": "e-try-except-propagates-before-start", "expect": "C09.e", "edits": [{"file": RT + "try_except_node.cpp", "find": "            single_nested_graph_bind_output(nested, evaluation_time);\n            if (nested.context().options.start_child_on_start)\n            {\n                nested.child_graph().start(evaluation_time);\n                schedule_sampled_input_consumers(\n                    nested.child_graph(),\n                    evaluation_time,\n                    nested.context().spec.input_bindings);\n            }\n            single_nested_graph_propagate_schedule(nested);\n        }", "replace": "            single_nested_graph_bind_output(nested, evaluation_time);\n            single_nested_graph_propagate_schedule(nested);\n            if (nested.context().options.start_child_on_start)\n            {\n                nested.child_graph().start(evaluation_time);\n                schedule_sampled_input_consumers(\n                    nested.child_graph(),\n                    evaluation_time,\n                    nested.context().spec.input_bindings);\n            }\n        }"}]},
     {"id": "b2-evaluating-stuck-on-throw", "expect": "C09.b2", "edits": [{"file": GRAPH, "find": "  auto reset = make_scope_exit([&] noexcept { state.evaluating = false; });\n", "replace": ""}, {"file": GRAPH, "find": "        // (the enclosing mesh node resolves the dependency and resumes us).\n        return false;", "replace": "        // (the enclosing mesh node resolves the dependency and resumes us).\n        state.evaluating = false;\n        return false;"}, {"file": GRAPH, "find": "        graph_header<NestedGraphRuntimeStorage>(runtime, graph.data()));\n  }\n  return true;\n}", "replace": "        graph_header<NestedGraphRuntimeStorage>(runtime, graph.data()));\n  }\n  state.evaluating = false;\n  return true;\n}"}]},
     {"id": "a-nested-uses-root-slot", "expect": "C09.a", "edits": [{"file": GRAPH, "find": "        .schedule_node_impl = &nested_schedule_node_impl,", "replace": "        .schedule_node_impl = &schedule_node_impl<NestedGraphRuntimeStorage>,"}]},
     {"id": "b-no-clamp", "expect": "C09.b", "edits": [{"file": GRAPH, "find": "  when = std::max(when, parent.graph().evaluation_time());\n", "replace": ""}]},
